@@ -259,6 +259,18 @@ def mk (fixed counter : Bool) (r : List Sample) (rs : List (List Sample)) : AnyI
   | [] => { σ := Leaf, ops := leafOps, st := Leaf.init r }
   | _ => rs.foldl (foldNode fixed counter) (replicaIt counter r)
 
+/-- the PromQL function names (`SelectHints.Func`) that `isCounter` (pkg/dedup/iter.go) accepts —
+    the exact set is a regenerated fact (`dedupCounterFuncs`, tied in `Props/C01.lean`) -/
+def counterFuncs : List String := ["increase", "rate", "irate", "resets"]
+
+/-- `isCounter(f)` -/
+def isCounter (f : String) : Bool := counterFuncs.contains f
+
+/-- `dedup.NewSeries(lset, replicas, f).Iterator(nil)`: the function name of the select hints
+    decides whether the replicas are wrapped in `counterErrAdjustSeriesIterator` -/
+def mkF (fixed : Bool) (f : String) (r : List Sample) (rs : List (List Sample)) : AnyIt :=
+  mk fixed (isCounter f) r rs
+
 /-! ### driving an iterator -/
 
 /-- samples returned by repeated `Next` (at most `n` of them) -/
